@@ -229,7 +229,7 @@ func parseDirectives(doc *ast.CommentGroup, tier string) *Config {
 		case "outside":
 			cfg.Outside = append(cfg.Outside, rest)
 		case "nonative":
-			cfg.NoNative = true
+			cfg.NoNative = os.Getenv("VERIF_FORCENATIVE") == ""
 		case "numtokens":
 			cfg.NumTokens = true
 			cfg.Stubs = append(cfg.Stubs, "decimal formatting/parsing of symbolic integers (fmt %d / strconv.ParseUint) -> inverse pair on an opaque number token (the digit codec is trusted)")
@@ -242,6 +242,11 @@ func parseDirectives(doc *ast.CommentGroup, tier string) *Config {
 		case "lazyfp":
 			cfg.LazyFP = true
 			cfg.Bounds["float branches"] = "not pruned during exploration (both sides explored); every verdict query carries the full path condition"
+		case "fpsolver":
+			cfg.FPSolver = val
+			cfg.Bounds["float queries decided by"] = val
+		case "fpexactin":
+			cfg.FPExactIn = append(cfg.FPExactIn, strings.Fields(rest)...)
 		case "fpabstract":
 			if cfg.FPAbstract == nil {
 				cfg.FPAbstract = map[string]bool{}
